@@ -1,6 +1,8 @@
 """Contracts of the `_evaluate__` overrides in symbolic.py: the class-specific unfolding of Den / good_row."""
 from __future__ import annotations
 
+import ast
+
 import z3
 
 from eqlvc import z as Z
@@ -303,7 +305,7 @@ CONTRACTS += [ComparatorCacheWrite, ANDCacheWrite, ElseIfCacheWrite]
 
 # ---------------------------------------------------------------------------------------------------------------------
 # C04: the "keyword expression is being evaluated" flag of a variable is scoped to one evaluation
-from eqlvc.interp import State, Outcome, NEXT, CONTINUE, BREAK, RETURN, RAISE, GENEXIT  # noqa: E402
+from eqlvc.interp import State, Outcome, Tup, NEXT, CONTINUE, BREAK, RETURN, RAISE, GENEXIT  # noqa: E402
 from eqlvc.libmodel import LibModel, base_modenv, init_fields  # noqa: E402
 
 
@@ -392,3 +394,151 @@ class KwargsExpressionFlag(LibModel):
 
 
 CONTRACTS += [KwargsExpressionFlag]
+
+
+# ---------------------------------------------------------------------------------------------------------------------
+# C05: what is replayed from a result cache is what is stored there
+class CacheReplay(LibModel):
+    """BinaryOperator.yield_final_output_from_cache(variables_sources, cache): the READ side of the operators' result caches.
+    Assumed (IndexedCache.retrieve: bounded exhaustive check C20_cache; _most_general_: bounded exhaustive check
+    C05_most_general): the loop runs over some of the entries `retrieve` found for the lookup - each a pair (the entry's
+    binding merged into the lookup, the truth value stored with it).  Proved: a replayed row IS such an entry's binding,
+    untouched (it extends the lookup), the node's truth flag at that moment IS the truth value stored with that very entry,
+    and an entry is skipped only when it is a false one that the duplicate filter rejects.  Together with the cache-write
+    clauses (the stored truth value is the one the row was yielded with, the stored binding is the row on the cache keys)
+    a replay repeats what an evaluation delivered."""
+    qual = 'symbolic:BinaryOperator.yield_final_output_from_cache'
+    cls = 'BinaryOperator'
+    props = ('C05',)
+    modes = ('sound',)
+    final = True
+    trusted = ("IndexedCache.retrieve yields (entry binding merged into the lookup, stored value) for the matching entries "
+               "(bounded exhaustive check C20_cache)",
+               "_most_general_ returns some of the pairs it was given, each as it was (bounded exhaustive check C05_most_general)",
+               "the profiling counters have no effect on results")
+
+    def modenv(self):
+        return base_modenv()
+
+    def setup(self, eng):
+        sts = []
+        for given in ((False, True) if self.final else (True,)):
+            st = State()
+            st.fields = init_fields()
+            self.n = z3.Const('self', Z.Node)
+            st.locals['self'] = ZV(self.n, 'node')
+            st.ghost['self'] = self.n
+            vs = eng.new_dict(st, Z.ZMap.fresh('lookup'))
+            st.locals['variables_sources'] = vs
+            st.ghost['lookup_ref'] = vs.ref
+            st.ghost['lookup0'] = st.dicts[vs.ref]
+            st.locals['cache'] = Obj('cache', {'of': self.n, 'which': 'given'}) if given else NONE
+            st.ghost['given'] = given
+            st.ghost['cur'] = None
+            st.ghost['skipped_ok'] = True
+            st.path.append(f"cache={'given' if given else 'own'}")
+            sts.append(st)
+        return sts
+
+    # the profiling counters (cache_match_count.values[name] += 1 ...) are dropped
+    def augassign(self, eng, st, s):
+        if isinstance(s.target, ast.Subscript) and ast.unparse(s.target).startswith(('cache_match_count.', 'cache_enter_count.', 'cache_search_count.')):
+            return [Outcome(st)]
+        return None
+
+    def setitem(self, eng, st, recv, k, v):
+        if isinstance(recv, Obj) and recv.kind == 'counter':
+            return [st]
+        return None
+
+    def obj_cache_retrieve(self, eng, st, recv, args, kwargs, node):
+        ok = len(args) == 1 and not kwargs and isinstance(args[0], D) and args[0].ref == st.ghost['lookup_ref']
+        want = 'given' if st.ghost['given'] else '_cache_'
+        eng.oblige(st, "C05/replay/the-lookup-is-the-binding-that-was-handed-in-on-the-right-cache",
+                   z3.BoolVal(bool(ok and recv.data.get('which') == want)), line=node.lineno)
+        return [(st, Obj('retrieved', {}))]
+
+    def node__most_general_(self, eng, st, recv, args, kwargs, node):
+        if not (len(args) == 1 and isinstance(args[0], Obj) and args[0].kind == 'retrieved'):
+            raise OutOfSubset("_most_general_ of something else than what retrieve returned", node)
+        return [(st, Obj('kept', {}))]
+
+    def node__is_duplicate_output_(self, eng, st, recv, args, kwargs, node):
+        cur = st.ghost['cur']
+        ok = cur is not None and len(args) == 1 and isinstance(args[0], D) and args[0].ref == cur[0]
+        eng.oblige(st, "C05/replay/the-duplicate-filter-is-asked-about-the-entry-itself", z3.BoolVal(bool(ok)), line=node.lineno)
+        st = st.clone()
+        d = z3.FreshConst(Z.B, 'is_duplicate')
+        st.ghost['dup'] = d
+        return [(st, ZV(d, 'bool'))]
+
+    def getattr(self, eng, st, recv, name):
+        if isinstance(recv, Obj) and recv.kind == 'cache' and name in ('enter_count', 'search_count'):
+            return [(st, ZV(z3.FreshConst(Z.I, name), 'int'))]
+        return super().getattr(eng, st, recv, name)
+
+    def abstract_loop(self, eng, st, s, it, ordinal):
+        if isinstance(it, Obj) and it.kind == 'kept':
+            outs = [Outcome(st)]
+            b = st.clone()
+            out = eng.new_dict(b, Z.ZMap.fresh('entry'))
+            b.assume(b.dicts[out.ref].extends(b.ghost['lookup0']))
+            label = z3.FreshConst(Z.B, 'stored_is_false')
+            b.ghost['cur'] = (out.ref, label, b.dicts[out.ref])
+            b.ghost['dup'] = None
+            for b2 in eng.assign(s.target, Tup([out, ZV(label, 'bool')]), b):
+                for o in eng.exec_block(s.body, b2):
+                    if o.sig == CONTINUE or (o.sig == NEXT and not o.st.ghost.get('yielded_cur')):
+                        # the entry was not replayed: only a false entry the duplicate filter rejected may be skipped
+                        dup = o.st.ghost.get('dup')
+                        eng.oblige(o.st, "C05/replay/only-a-false-duplicate-entry-is-skipped",
+                                   z3.And(label, dup) if (dup is not None and self.final) else z3.BoolVal(False))
+                    o.st.ghost.pop('yielded_cur', None) if isinstance(o.st.ghost, dict) else None
+                    outs.append(Outcome(o.st) if o.sig in (NEXT, CONTINUE, BREAK) else o)
+            return outs
+        return super().abstract_loop(eng, st, s, it, ordinal)
+
+    def on_yield(self, eng, st, v, ordinal, node):
+        cur = st.ghost['cur']
+        n = self.n
+        row, lab = v, None
+        if not self.final:
+            if not (isinstance(v, Tup) and len(v.items) == 2):
+                raise OutOfSubset("yield of something else than (row, truth value)", node)
+            row, lab = v.items
+        if not isinstance(row, D):
+            raise OutOfSubset("yield of a non-dict", node)
+        ok_row = cur is not None and row.ref == cur[0]
+        eng.oblige(st, f"C05/replay@yield#{ordinal}/the-row-is-the-stored-entry-itself", z3.BoolVal(bool(ok_row)), line=node.lineno)
+        if cur is not None:
+            eng.oblige(st, f"C05/replay@yield#{ordinal}/the-row-is-untouched", st.dicts[row.ref].same(cur[2]), line=node.lineno)
+            eng.oblige(st, f"C05/replay@yield#{ordinal}/the-row-extends-the-lookup", st.dicts[row.ref].extends(st.ghost['lookup0']), line=node.lineno)
+            if self.final:
+                eng.oblige(st, f"C05/replay@yield#{ordinal}/the-truth-flag-is-the-one-stored-with-the-entry",
+                           z3.Select(st.fields['is_false'], n) == cur[1], line=node.lineno)
+            else:
+                eng.oblige(st, f"C05/replay@yield#{ordinal}/the-truth-value-handed-on-is-the-one-stored-with-the-entry",
+                           z3.BoolVal(isinstance(lab, ZV)) if not isinstance(lab, ZV) else lab.t == cur[1], line=node.lineno)
+        eng.oblige(st, f"C05/replay@yield#{ordinal}/the-lookup-binding-is-left-as-it-was",
+                   st.dicts[st.ghost['lookup_ref']].same(st.ghost['lookup0']), line=node.lineno)
+        eng.oblige(st, f"cover@yield#{ordinal}", z3.BoolVal(True), kind='cover', line=node.lineno)
+        st = st.clone()
+        st.ghost['yielded_cur'] = True
+        return [st]
+
+    def on_exit(self, eng, o):
+        if o.sig == RAISE:
+            eng.oblige(o.st, "C05/replay/no-exception", z3.BoolVal(False))
+
+    def signature(self, ob, model):
+        return {}
+
+
+class CacheReplayPairs(CacheReplay):
+    """BinaryOperator.yield_from_cache(variables_sources, cache): the same, handing on (row, stored truth value) pairs and
+    skipping nothing"""
+    qual = 'symbolic:BinaryOperator.yield_from_cache'
+    final = False
+
+
+CONTRACTS += [CacheReplay, CacheReplayPairs]
